@@ -98,6 +98,34 @@ func c03Render(src string, data map[string]any) (string, error) {
 	return buf.String(), err
 }
 
+// a name assigned inside one iteration of a loop (a plain <template name="value"> in a branch) is undefined, hence
+// falsy, in the next iteration: the chain and v-show of every item decide by that item's own assignment
+func c03LoopAssign(r *Run) {
+	tpl := `<ul><li v-for="item in items"><span v-if="item.hot"><template badge="yes"></template>h</span><b v-if="badge">HOT</b><i v-else>plain</i><u v-show="badge">u</u></li></ul>`
+	for mask := 0; mask < 32; mask++ {
+		var items []any
+		want := "<ul>"
+		for i := 0; i < 5; i++ {
+			hot := mask>>i&1 == 1
+			items = append(items, map[string]any{"hot": hot})
+			if hot {
+				want += `<li><span>h</span><b>HOT</b><u>u</u></li>`
+			} else {
+				want += `<li><i>plain</i><ustyle="display:none;">u</u></li>`
+			}
+		}
+		want += "</ul>"
+		out, err := c03RenderAny(tpl, map[string]any{"items": items})
+		got := strings.Join(strings.Fields(out), "")
+		r.Eval(fmt.Sprintf("loop-assign:%d", mask), true, nil)
+		r.Count("stream:loop-assign(oracle only)")
+		if err != nil || got != want {
+			r.Fail("a chain inside a loop is decided by a name another iteration assigned", map[string]string{"oracle": "loop-assign", "kind": "oracle"},
+				map[string]any{"template": tpl, "hot_items": fmt.Sprintf("%05b", mask), "output": got, "expected": want, "err": fmt.Sprint(err)})
+		}
+	}
+}
+
 func init() { streams["C03"] = runC03 }
 
 // One engine, one chain whose conditions compare the loop variable with literals, over items of mixed Go
@@ -209,6 +237,7 @@ func c03LiteralWhitespace(r *Run) {
 }
 
 func runC03(r *Run) {
+	c03LoopAssign(r)
 	c03LiteralWhitespace(r)
 	c03TypedChains(r)
 	r.Imports = []string{"Base.Val", "Model.Chain", "Model.Truthy"}
